@@ -18,7 +18,8 @@ CONSTANTS Kinds, Wrappers, MaxLen,
           DevAngleNoGate,       \* a seeded change: the include gate is skipped for <...> paths
           DevFilterLastSection  \* a seeded change: the post-filter starts at the renderer's current node (the last section)
 
-RawRender == {"html_block", "html_inline", "hardbreak", "strike"}          \* the renderer itself emits raw nodes
+RawRender == {"html_block", "html_inline", "hardbreak", "strike", "html_cblock"}   \* the renderer itself emits raw nodes (html_cblock: an HTML block that starts and ends with a comment)
+Inert == {"evalrst_mdsub"}         \* a MyST substitution (whose value is HTML) referenced as |key| from rST: not defined there: nothing of it reaches the tree
 RawSelf == {"raw_dir", "evalrst_raw", "evalrst_rawrole"}                   \* docutils' own code checks raw_enabled
 FileMock == {"include", "include_literal", "include_code", "include_angle"} \* MockIncludeDirective.run
 FileSelf == {"evalrst_include", "csv_file"}                                 \* docutils' own code checks file_insertion_enabled
@@ -45,6 +46,7 @@ Render ==
                   [] kind \in FileMock ->
                        IF fileOn \/ (DevAngleNoGate /\ kind = "include_angle") THEN <<Node("ins", pos)>> ELSE <<Node("warn", pos)>>
                   [] kind \in FileSelf -> IF fileOn THEN <<Node("ins", pos)>> ELSE <<Node("warn", pos)>>
+                  [] kind \in Inert -> <<>>             \* (docutils reports the undefined substitution in its own section at the end)
                   [] kind = "raw_file" -> IF ~rawOn THEN <<Node("warn", pos)>>
                                           ELSE IF ~fileOn THEN <<Node("warn", pos)>> ELSE <<Node("raw", pos)>>
          \* wrapper "sec": the construct sits in a section of its own that is followed by another section
@@ -95,7 +97,7 @@ RefusalsWarn == Done => \A c \in 1..Len(doc) : Refused(c) => \E n \in Items("war
 MarkersKept == Done => [n \in 1..Len(SelectSeq(tree, LAMBDA x : x.k = "marker")) |-> SelectSeq(tree, LAMBDA x : x.k = "marker")[n].c]
                          = [c \in 1..Len(doc) |-> c]
 (* nothing is refused when the settings allow it *)
-AllowedPass == Done => \A c \in 1..Len(doc) : ~Refused(c) =>
+AllowedPass == Done => \A c \in 1..Len(doc) : (~Refused(c) /\ doc[c][1] \notin Inert) =>
                  (\E n \in 1..Len(tree) : tree[n].c = c /\ tree[n].k \in {"raw", "ins"})
 Terminates == <>Done
 
